@@ -1,10 +1,12 @@
 """C03 - runs are reproducible and unaffected by where they are stopped"""
-from . import kernel, whomay, nondet, guards
+from . import kernel, whomay, nondet, guards, deps
 
 def check(ctx):
     kernel.run_tables(ctx, 'C03', [
         ('Environment', 'run'), ('Environment', 'step'), ('StopSimulation', 'callback'),
     ])
+    deps.layer(ctx, 'C03', kernel, deps.REALTIME)
+    whomay.agenda_readers(ctx, 'C03')
     nondet.sources(ctx, 'C03')
     whomay.schedule_delay_exact(ctx, 'C03')
     guards.nan_refused(ctx, 'C03', [('Environment', 'run', 'until')],
